@@ -251,6 +251,11 @@ class PropertyCheck:
                 out = f"crash {type(e).__name__}: {e}"
                 fails.append(Failure("crash", scenario, i, out + "\n" + traceback.format_exc(limit=4), site="crash"))
             outs.append(out)
+            # inconsistencies the interpreter itself establishes on the real objects (a deep copy whose bookkeeping contradicts its own
+            # schedule, the busy sibling dispatcher failing, a refused constructor that left a subscriber behind, a chart the caller holds
+            # changing under it): failing inputs for whichever property is being checked
+            if out.startswith(("copy-inconsistent", "copy-raised", "sibling-error", "raise-after-subscribe", "held-chart-changed")):
+                fails.append(Failure("oracle", scenario, i, f"`{line}`: {out[:400]}", observed=out, site="harness:" + out.split(" ", 1)[0]))
             ml = getattr(impl, "model_line", None)
             scenario.model_lines.append(ml(line) if ml else line)
             try:
